@@ -1496,7 +1496,16 @@ func (e *xstore) do(op string) {
 		// store-level model: which untagged manifests gcIndex kept as roots.  With AutoSaveIndex on
 		// GC has just written index.json: its entries without a name are exactly those (plus the
 		// restored digest references, which the model adds itself).  Otherwise: the survivors.
-		if !e.autoSaveOff {
+		savedAfterGC := false
+		if e.autoSaveOff {
+			// GC did not write index.json; save it now so that the roots gcIndex kept can be read
+			// (the model gets the SaveIndex step right after the GC step)
+			if err := e.ociSt.SaveIndex(); err != nil {
+				e.fail("saveindex-error", fmt.Sprintf("SaveIndex after GC: %v", err))
+			}
+			savedAfterGC = true
+		}
+		{
 			if listed, named, err := e.indexEntries(); err == nil {
 				isNamed := map[int]bool{}
 				for _, i := range named {
@@ -1512,6 +1521,9 @@ func (e *xstore) do(op string) {
 			}
 		}
 		e.sops = append(e.sops, "G"+strings.Join(kept, "."))
+		if savedAfterGC {
+			e.sops = append(e.sops, "W")
+		}
 	case "reopen":
 		if e.ociSt == nil {
 			return
